@@ -63,7 +63,7 @@ CHECKS = {
         "expect_probes": ["await-absent", "await-after-completion", "await-before-completion", "await-timeout", "complete-without-effect", "waiter-across-reinit", "context-cancelled", "body-closed-early"],
         "real": ["internal/tracer: tracer.go (Init/Complete/Await/Clear), builder.go, middleware.go, reader.go (instrumented copies of the current tree)"],
         "stubbed": ["HTTP transport/handler (scripted), bodies (simio), wall clock (synctest), goroutine scheduling (seeded scheduler)"],
-        "assumptions": ["each slot operation has exactly one critical section (checked per run: otherwise the run is discarded as not analysable)",
+        "assumptions": ["the first critical section of a slot operation is its linearization point (an operation without any lock acquisition makes the run not analysable: discarded and counted)",
                         "when a slot is cleared or re-initialised while a waiter waits, the waiter may time out or obtain a later completion (the statement does not decide it)",
                         "a completion that coincides with the waiter's deadline may go either way",
                         "the data-race clause is not decided here: under the controlled scheduler all steps are ordered by the scheduler's hand-offs"],
